@@ -263,6 +263,41 @@ def run(ctx):
                               f"expected first matching alternative {None if exp is None else snap(exp)}", dict(payload, host=h))
             if m is not None and not (sufficient(refa, h) if got is ra else sufficient(refb, h)):
                 res.violation("match-insufficient:union", f"union matched an insufficient host {h}", dict(payload, host=h))
+        # a union extended by a further alternative (u | c, c | u): the union u is an operand too and must not change - neither its
+        # structure nor what it matches; the extended request matches exactly the hosts that satisfy one of the alternatives
+        if len(a) == 1 and len(b) == 1:
+            su = snap(u)
+            before = [u.match(hs) is not None for hs in HS]
+            for c in [(t,) for t in T][:: (3 if ctx.quick else 1)]:
+                rc = mk(c)
+                sc_ = snap(rc)
+                refc = ref_and([t[2] for t in c])
+                for side, ext in (("left", lambda: u | rc), ("right", lambda: rc | u)):
+                    try:
+                        u3 = ext()
+                    except Exception as e:  # noqa
+                        res.violation(f"or-raises:{type(e).__name__}", f"extending a union raised {e!r}", dict(payload, c=[[t[0], list(t[1])] for t in c], side=side))
+                        continue
+                    evaluations += 1
+                    if snap(u) != su or snap(rc) != sc_ or (snap(ra), snap(rb)) != (sa, sb):
+                        res.violation("operand-altered:or:union", f"(a | b) | c with the union as {side} operand: an operand changed ({su} -> {snap(u)})",
+                                      dict(payload, c=[[t[0], list(t[1])] for t in c], side=side))
+                        su, sc_, sa, sb = snap(u), snap(rc), snap(ra), snap(rb)
+                    after = [u.match(hs) is not None for hs in HS]
+                    if after != before:
+                        res.violation("operand-altered:or:union-matches", f"the union (a | b) matches other hosts after it was extended by | c ({side})",
+                                      dict(payload, c=[[t[0], list(t[1])] for t in c], side=side))
+                        before = after
+                    for h, hs in zip(H, HS):
+                        evaluations += 1
+                        got3 = u3.match(hs) is not None
+                        want = any(r.match(hs) is not None for r in (ra, rb, rc))
+                        if got3 != want:
+                            res.violation("union3-match", f"({refa}) | ({refb}) | ({refc}) [{side}] on host {h}: matched={got3}, but its alternatives taken alone: {want}",
+                                          dict(payload, c=[[t[0], list(t[1])] for t in c], side=side, host=h))
+                        if got3 and not (sufficient(refa, h) or sufficient(refb, h) or sufficient(refc, h)):
+                            res.violation("match-insufficient:union3", f"({refa}) | ({refb}) | ({refc}) [{side}] matched an insufficient host {h}",
+                                          dict(payload, c=[[t[0], list(t[1])] for t in c], side=side, host=h))
         if all(t[3] for t in a + b):
             text = LAYOUTS[n_union % 3]([LAYOUTS[0]([t[3] for t in a], "&"), LAYOUTS[0]([t[3] for t in b], "&")], "|")
             try:
